@@ -447,6 +447,11 @@ def gen_spelling(rng, items, allow_heading=True, blanks=True):
     sp["heading"] = None
     if allow_heading and heading_ok(items) and rng.random() < 0.25:
         sp["heading"] = [(rng.choice([1, 1, 2, 3]), rng.choice([b" ", b" ", b"", b"  "]), rng.choice([b"", b"", b" "])) for _ in items]
+        # mixed notation: the first roots as bullets, headings from some later root on (after the first heading every
+        # column-0 bullet is a child, so the switch can happen only once, at a root)
+        root_idx = [i for i, (d, _) in enumerate(items) if d == 1]
+        if len(root_idx) > 1 and rng.random() < 0.4:
+            sp["heading_from"] = rng.choice(root_idx[1:])
     nl = len(items)
     if blanks and rng.random() < 0.5:
         sp["blanks"] = [[rng.choice(BLANK_LINES) for _ in range(rng.choice([0, 0, 0, 1, 1, 2]))] for _ in range(nl + 1)]
@@ -475,7 +480,7 @@ def spell_lines(items, sp):
     for i, (d, n) in enumerate(items):
         for bl in sp["blanks"][i]:
             lines.append((bl, sp["crlf"][i], None))
-        if sp["heading"] is not None:
+        if sp["heading"] is not None and i >= sp.get("heading_from", 0):
             if d == 1:
                 k, pre, post = sp["heading"][i]
                 row = b"#" * k + pre + n + post
